@@ -56,7 +56,7 @@ GROWTH_MIN_VALUE = 40       # ratios of tiny counts (1, 2, 4 ...) are not eviden
 # test is for work, i.e. for sums
 NO_GROWTH_TEST = ("strict_eval_max_bytes", "strict_eval_max_result_bits")
 
-ENVELOPES = {}              # filled from the committed table at the end of this file
+ENVELOPES = {}              # replaced by the committed table at the end of this file
 
 
 # =============================================================================================================
@@ -291,10 +291,15 @@ class Judge:
                           case, {"fold": pend, "last_snapshot_t": last.get("t")})
                 return
             g = growing_counter(series)
-            if g:
+            cpu = last.get("cpu", 0.0)
+            if g and cpu >= 0.5 * case["watchdog"]:
                 self.fail(fam, g[0], "watchdog", p2,
-                          f"{fam}(n={n}, p2={p2}): still running at the {case['watchdog']:.0f} s watchdog with {g[0]} growing: "
-                          f"{g[2]}", case, {"series_tail": g[2]})
+                          f"{fam}(n={n}, p2={p2}): still running at the {case['watchdog']:.0f} s watchdog after {cpu:.0f} s of "
+                          f"CPU with {g[0]} growing: {g[2]}", case, {"series_tail": g[2], "cpu_s": cpu})
+                return
+            if g:
+                chk.note_inconclusive(f"{fam}(n={n}, p2={p2}): watchdog fired with {g[0]} growing but the child had only "
+                                      f"{cpu:.0f} s of CPU (machine overloaded)")
                 return
             chk.note_inconclusive(f"{fam}(n={n}, p2={p2}): watchdog fired without counter evidence "
                                   f"({len(series)} snapshots)")
@@ -555,8 +560,12 @@ def dump_raw(judge, chk, out_dir):
 def fit(points):
     """points: [(n, value)] -> (a, d): smallest d in 1..4 whose normalised values do not keep rising with n."""
     pts = sorted(points)
-    nmax = max(n for n, _ in pts)
-    top = [p for p in pts if p[0] >= 0.7 * nmax] or pts
+    top_ns = sorted({n for n, _ in pts})[-3:]
+    best = {}
+    for n, v in pts:
+        if n in top_ns:
+            best[n] = max(best.get(n, 0), v)
+    top = sorted(best.items())
     for d in (1, 2, 3, 4):
         norm = [v / (n + 1) ** d for n, v in pts]
         a = max(norm)
@@ -594,6 +603,357 @@ def merge(in_dir, out_path):
             f.write(line.rstrip() + "\n    },\n")
         f.write("}\n")
     print("envelopes written to", out_path)
+
+
+# =============================================================================================================
+# Committed calibration constants: (a, d) means counter <= a * (n + 1) ** d.  Fitted (see `merge`) on the tree with the
+# four proposed C13 repairs applied (the unrepaired tree violates the property on the fold/hostile families, so it
+# cannot supply their envelopes), seeds 0,1,2,5 thorough + 3,4 quick, both --enable-p2 modes, a = 10 x the largest
+# normalised value observed.  Not recomputed at run time.
+ENVELOPES = {
+    'aliases_n': {
+        'gir_stmts': (140, 1), 'calls_lang': (3560, 1), 'calls_basics': (1620, 1), 'calls_core': (6300, 1),
+        'calls_taint': (5400, 1), 'calls_structs': (62500, 1), 'p3_frames': (26, 1), 'stmt_transfers_p3': (150, 1),
+        'handler_runs': (220, 1), 'space_adds': (1700, 1), 'states_created': (66, 1), 'p3_space_len': (540, 1),
+        'sfg_nodes': (500, 1), 'sfg_edges': (530, 1), 'sfg_add_edge_calls': (1120, 1), 'call_paths': (10, 1),
+        'call_resolutions_p3': (40, 1), 'taint_pops': (156, 1), 'taint_propagations': (10, 1),
+        'taint_enqueue_calls': (164, 1), 'strict_eval_calls': (10, 1), 'strict_eval_bytes': (10, 1),
+        'strict_eval_max_bytes': (10, 1), 'strict_eval_max_result_bits': (10, 1), 'p2_frames': (26, 1),
+        'p2_methods': (26, 1), 'stmt_transfers_p2': (90, 1), 'call_resolutions_p2': (20, 1), 'prep_files': (16, 1),
+    },
+    'array_n': {
+        'gir_stmts': (156, 1), 'calls_lang': (4260, 1), 'calls_basics': (1880, 1), 'calls_core': (9250, 1),
+        'calls_taint': (7960, 1), 'calls_structs': (89300, 1), 'p3_frames': (16, 1), 'stmt_transfers_p3': (230, 1),
+        'handler_runs': (336, 1), 'space_adds': (2340, 1), 'states_created': (130, 1), 'p3_space_len': (856, 1),
+        'sfg_nodes': (670, 1), 'sfg_edges': (1210, 1), 'sfg_add_edge_calls': (2430, 1), 'call_paths': (10, 1),
+        'call_resolutions_p3': (30, 1), 'taint_pops': (256, 1), 'taint_propagations': (10, 1),
+        'taint_enqueue_calls': (266, 1), 'strict_eval_calls': (70, 1), 'strict_eval_bytes': (190, 1),
+        'strict_eval_max_bytes': (26, 1), 'strict_eval_max_result_bits': (10, 1), 'p2_frames': (20, 1),
+        'p2_methods': (20, 1), 'stmt_transfers_p2': (130, 1), 'call_resolutions_p2': (20, 1), 'prep_files': (16, 1),
+    },
+    'binop_chain': {
+        'gir_stmts': (116, 1), 'calls_lang': (4140, 1), 'calls_basics': (1580, 1), 'calls_core': (6330, 1),
+        'calls_taint': (4220, 1), 'calls_structs': (153000, 1), 'p3_frames': (16, 1), 'stmt_transfers_p3': (160, 1),
+        'handler_runs': (246, 1), 'space_adds': (1990, 1), 'states_created': (233, 1), 'p3_space_len': (784, 1),
+        'sfg_nodes': (715, 1), 'sfg_edges': (872, 1), 'sfg_add_edge_calls': (1740, 1), 'call_paths': (10, 1),
+        'call_resolutions_p3': (20, 1), 'taint_pops': (76, 1), 'taint_propagations': (10, 1),
+        'taint_enqueue_calls': (76, 1), 'strict_eval_calls': (303, 1), 'strict_eval_bytes': (44800, 1),
+        'strict_eval_max_bytes': (244, 1), 'strict_eval_max_result_bits': (1920, 1), 'p2_frames': (20, 1),
+        'p2_methods': (20, 1), 'stmt_transfers_p2': (96, 1), 'call_resolutions_p2': (16, 1), 'prep_files': (16, 1),
+    },
+    'branch_fold': {
+        'gir_stmts': (116, 1), 'calls_lang': (3180, 1), 'calls_basics': (1420, 1), 'calls_core': (5430, 1),
+        'calls_taint': (3910, 1), 'calls_structs': (58000, 1), 'p3_frames': (16, 1), 'stmt_transfers_p3': (140, 1),
+        'handler_runs': (216, 1), 'space_adds': (1720, 1), 'states_created': (296, 1), 'p3_space_len': (650, 1),
+        'sfg_nodes': (454, 1), 'sfg_edges': (534, 1), 'sfg_add_edge_calls': (1280, 1), 'call_paths': (10, 1),
+        'call_resolutions_p3': (27, 1), 'taint_pops': (90, 1), 'taint_propagations': (10, 1),
+        'taint_enqueue_calls': (104, 1), 'strict_eval_calls': (276, 1), 'strict_eval_bytes': (1290, 1),
+        'strict_eval_max_bytes': (30, 1), 'strict_eval_max_result_bits': (20, 1), 'p2_frames': (20, 1),
+        'p2_methods': (20, 1), 'stmt_transfers_p2': (86, 1), 'call_resolutions_p2': (16, 1), 'prep_files': (16, 1),
+    },
+    'branch_n': {
+        'gir_stmts': (166, 1), 'calls_lang': (3660, 1), 'calls_basics': (1760, 1), 'calls_core': (8320, 1),
+        'calls_taint': (7780, 1), 'calls_structs': (87400, 1), 'p3_frames': (16, 1), 'stmt_transfers_p3': (214, 1),
+        'handler_runs': (336, 1), 'space_adds': (1930, 1), 'states_created': (76, 1), 'p3_space_len': (670, 1),
+        'sfg_nodes': (530, 1), 'sfg_edges': (720, 1), 'sfg_add_edge_calls': (1520, 1), 'call_paths': (10, 1),
+        'call_resolutions_p3': (20, 1), 'taint_pops': (270, 1), 'taint_propagations': (10, 1),
+        'taint_enqueue_calls': (310, 1), 'strict_eval_calls': (30, 1), 'strict_eval_bytes': (88, 1),
+        'strict_eval_max_bytes': (30, 1), 'strict_eval_max_result_bits': (10, 1), 'p2_frames': (20, 1),
+        'p2_methods': (20, 1), 'stmt_transfers_p2': (126, 1), 'call_resolutions_p2': (16, 1), 'prep_files': (16, 1),
+    },
+    'chain_k2': {
+        'gir_stmts': (160, 1), 'calls_lang': (3300, 1), 'calls_basics': (1600, 1), 'calls_core': (51700, 1),
+        'calls_taint': (12800, 1), 'calls_structs': (202000, 1), 'p3_frames': (76, 1), 'stmt_transfers_p3': (508, 1),
+        'handler_runs': (579, 1), 'space_adds': (4650, 1), 'states_created': (95, 1), 'p3_space_len': (2010, 1),
+        'sfg_nodes': (1310, 1), 'sfg_edges': (1800, 1), 'sfg_add_edge_calls': (3750, 1), 'call_paths': (71, 1),
+        'call_resolutions_p3': (217, 1), 'taint_pops': (283, 1), 'taint_propagations': (10, 1),
+        'taint_enqueue_calls': (369, 1), 'strict_eval_calls': (36, 1), 'strict_eval_bytes': (288, 1),
+        'strict_eval_max_bytes': (26, 1), 'strict_eval_max_result_bits': (10, 1), 'p2_frames': (30, 1),
+        'p2_methods': (30, 1), 'stmt_transfers_p2': (90, 1), 'call_resolutions_p2': (30, 1), 'prep_files': (16, 1),
+    },
+    'chain_k3': {
+        'gir_stmts': (170, 1), 'calls_lang': (3610, 1), 'calls_basics': (1690, 1), 'calls_core': (144000, 1),
+        'calls_taint': (25500, 1), 'calls_structs': (429000, 1), 'p3_frames': (113, 1),
+        'stmt_transfers_p3': (960, 1), 'handler_runs': (1050, 1), 'space_adds': (10300, 1),
+        'states_created': (242, 1), 'p3_space_len': (4680, 1), 'sfg_nodes': (2800, 1), 'sfg_edges': (3970, 1),
+        'sfg_add_edge_calls': (8080, 1), 'call_paths': (209, 1), 'call_resolutions_p3': (425, 1),
+        'taint_pops': (478, 1), 'taint_propagations': (10, 1), 'taint_enqueue_calls': (616, 1),
+        'strict_eval_calls': (105, 1), 'strict_eval_bytes': (1110, 1), 'strict_eval_max_bytes': (26, 1),
+        'strict_eval_max_result_bits': (16, 1), 'p2_frames': (30, 1), 'p2_methods': (30, 1),
+        'stmt_transfers_p2': (100, 1), 'call_resolutions_p2': (40, 1), 'prep_files': (16, 1),
+    },
+    'cyclic_imports': {
+        'gir_stmts': (207, 1), 'calls_lang': (3850, 1), 'calls_basics': (1920, 1), 'calls_core': (17000, 1),
+        'calls_taint': (7460, 1), 'calls_structs': (97200, 1), 'p3_frames': (40, 1), 'stmt_transfers_p3': (246, 1),
+        'handler_runs': (340, 1), 'space_adds': (2760, 1), 'states_created': (140, 1), 'p3_space_len': (863, 1),
+        'sfg_nodes': (726, 1), 'sfg_edges': (880, 1), 'sfg_add_edge_calls': (1890, 1), 'call_paths': (10, 1),
+        'call_resolutions_p3': (70, 1), 'taint_pops': (200, 1), 'taint_propagations': (10, 1),
+        'taint_enqueue_calls': (210, 1), 'strict_eval_calls': (70, 1), 'strict_eval_bytes': (253, 1),
+        'strict_eval_max_bytes': (26, 1), 'strict_eval_max_result_bits': (10, 1), 'p2_frames': (30, 1),
+        'p2_methods': (30, 1), 'stmt_transfers_p2': (100, 1), 'call_resolutions_p2': (30, 1), 'prep_files': (20, 1),
+    },
+    'cyclic_objects': {
+        'gir_stmts': (190, 1), 'calls_lang': (4520, 1), 'calls_basics': (1930, 1), 'calls_core': (9970, 1),
+        'calls_taint': (7960, 1), 'calls_structs': (78000, 1), 'p3_frames': (26, 1), 'stmt_transfers_p3': (230, 1),
+        'handler_runs': (290, 1), 'space_adds': (2430, 1), 'states_created': (126, 1), 'p3_space_len': (766, 1),
+        'sfg_nodes': (750, 1), 'sfg_edges': (806, 1), 'sfg_add_edge_calls': (1660, 1), 'call_paths': (19, 1),
+        'call_resolutions_p3': (40, 1), 'taint_pops': (246, 1), 'taint_propagations': (10, 1),
+        'taint_enqueue_calls': (256, 1), 'strict_eval_calls': (50, 1), 'strict_eval_bytes': (170, 1),
+        'strict_eval_max_bytes': (26, 1), 'strict_eval_max_result_bits': (10, 1), 'p2_frames': (26, 1),
+        'p2_methods': (26, 1), 'stmt_transfers_p2': (126, 1), 'call_resolutions_p2': (20, 1), 'prep_files': (16, 1),
+    },
+    'deep_expr': {
+        'gir_stmts': (166, 1), 'calls_lang': (3140, 1), 'calls_basics': (1860, 1), 'calls_core': (4730, 2),
+        'calls_taint': (12400, 1), 'calls_structs': (49900, 2), 'p3_frames': (80, 1), 'stmt_transfers_p3': (317, 1),
+        'handler_runs': (356, 1), 'space_adds': (3820, 1), 'states_created': (120, 1), 'p3_space_len': (1400, 1),
+        'sfg_nodes': (1230, 1), 'sfg_edges': (1380, 1), 'sfg_add_edge_calls': (2880, 1), 'call_paths': (79, 1),
+        'call_resolutions_p3': (159, 1), 'taint_pops': (397, 1), 'taint_propagations': (10, 1),
+        'taint_enqueue_calls': (397, 1), 'strict_eval_calls': (79, 1), 'strict_eval_bytes': (63, 2),
+        'strict_eval_max_bytes': (26, 1), 'strict_eval_max_result_bits': (18, 1), 'p2_frames': (26, 1),
+        'p2_methods': (26, 1), 'stmt_transfers_p2': (126, 1), 'call_resolutions_p2': (40, 1), 'prep_files': (16, 1),
+    },
+    'diamond': {
+        'gir_stmts': (250, 1), 'calls_lang': (4500, 1), 'calls_basics': (2080, 1), 'calls_core': (8920, 2),
+        'calls_taint': (19100, 1), 'calls_structs': (370000, 1), 'p3_frames': (142, 1),
+        'stmt_transfers_p3': (950, 1), 'handler_runs': (1090, 1), 'space_adds': (8840, 1), 'states_created': (66, 1),
+        'p3_space_len': (3900, 1), 'sfg_nodes': (2220, 1), 'sfg_edges': (2770, 1), 'sfg_add_edge_calls': (5860, 1),
+        'call_paths': (132, 1), 'call_resolutions_p3': (405, 1), 'taint_pops': (346, 1),
+        'taint_propagations': (10, 1), 'taint_enqueue_calls': (376, 1), 'strict_eval_calls': (10, 1),
+        'strict_eval_bytes': (10, 1), 'strict_eval_max_bytes': (10, 1), 'strict_eval_max_result_bits': (10, 1),
+        'p2_frames': (40, 1), 'p2_methods': (36, 1), 'stmt_transfers_p2': (140, 1), 'call_resolutions_p2': (59, 1),
+        'prep_files': (16, 1),
+    },
+    'fields_n': {
+        'gir_stmts': (120, 1), 'calls_lang': (3060, 1), 'calls_basics': (1420, 1), 'calls_core': (4820, 1),
+        'calls_taint': (4160, 1), 'calls_structs': (45400, 1), 'p3_frames': (26, 1), 'stmt_transfers_p3': (110, 1),
+        'handler_runs': (160, 1), 'space_adds': (1400, 1), 'states_created': (66, 1), 'p3_space_len': (426, 1),
+        'sfg_nodes': (396, 1), 'sfg_edges': (396, 1), 'sfg_add_edge_calls': (793, 1), 'call_paths': (10, 1),
+        'call_resolutions_p3': (40, 1), 'taint_pops': (116, 1), 'taint_propagations': (10, 1),
+        'taint_enqueue_calls': (116, 1), 'strict_eval_calls': (10, 1), 'strict_eval_bytes': (14, 1),
+        'strict_eval_max_bytes': (10, 1), 'strict_eval_max_result_bits': (10, 1), 'p2_frames': (26, 1),
+        'p2_methods': (26, 1), 'stmt_transfers_p2': (70, 1), 'call_resolutions_p2': (20, 1), 'prep_files': (16, 1),
+    },
+    'fold_depth': {
+        'gir_stmts': (100, 1), 'calls_lang': (2680, 1), 'calls_basics': (1280, 1), 'calls_core': (4360, 1),
+        'calls_taint': (2540, 1), 'calls_structs': (47300, 1), 'p3_frames': (16, 1), 'stmt_transfers_p3': (100, 1),
+        'handler_runs': (170, 1), 'space_adds': (1600, 1), 'states_created': (230, 1), 'p3_space_len': (547, 1),
+        'sfg_nodes': (304, 1), 'sfg_edges': (430, 1), 'sfg_add_edge_calls': (1040, 1), 'call_paths': (10, 1),
+        'call_resolutions_p3': (20, 1), 'taint_pops': (56, 1), 'taint_propagations': (10, 1),
+        'taint_enqueue_calls': (56, 1), 'strict_eval_calls': (210, 1), 'strict_eval_bytes': (1010, 1),
+        'strict_eval_max_bytes': (26, 1), 'strict_eval_max_result_bits': (16, 1), 'p2_frames': (20, 1),
+        'p2_methods': (20, 1), 'stmt_transfers_p2': (70, 1), 'call_resolutions_p2': (16, 1), 'prep_files': (16, 1),
+    },
+    'fold_double': {
+        'gir_stmts': (76, 1), 'calls_lang': (2340, 1), 'calls_basics': (1150, 1), 'calls_core': (3410, 1),
+        'calls_taint': (2040, 1), 'calls_structs': (30200, 1), 'p3_frames': (16, 1), 'stmt_transfers_p3': (70, 1),
+        'handler_runs': (126, 1), 'space_adds': (830, 1), 'states_created': (60, 1), 'p3_space_len': (246, 1),
+        'sfg_nodes': (196, 1), 'sfg_edges': (190, 1), 'sfg_add_edge_calls': (500, 1), 'call_paths': (10, 1),
+        'call_resolutions_p3': (20, 1), 'taint_pops': (46, 1), 'taint_propagations': (10, 1),
+        'taint_enqueue_calls': (46, 1), 'strict_eval_calls': (26, 1), 'strict_eval_bytes': (13600, 1),
+        'strict_eval_max_bytes': (2580, 1), 'strict_eval_max_result_bits': (13700, 1), 'p2_frames': (20, 1),
+        'p2_methods': (20, 1), 'stmt_transfers_p2': (56, 1), 'call_resolutions_p2': (16, 1), 'prep_files': (16, 1),
+    },
+    'fold_square': {
+        'gir_stmts': (76, 1), 'calls_lang': (2280, 1), 'calls_basics': (1140, 1), 'calls_core': (3410, 1),
+        'calls_taint': (2040, 1), 'calls_structs': (30200, 1), 'p3_frames': (16, 1), 'stmt_transfers_p3': (70, 1),
+        'handler_runs': (126, 1), 'space_adds': (830, 1), 'states_created': (60, 1), 'p3_space_len': (246, 1),
+        'sfg_nodes': (196, 1), 'sfg_edges': (190, 1), 'sfg_add_edge_calls': (500, 1), 'call_paths': (10, 1),
+        'call_resolutions_p3': (20, 1), 'taint_pops': (46, 1), 'taint_propagations': (10, 1),
+        'taint_enqueue_calls': (46, 1), 'strict_eval_calls': (28, 1), 'strict_eval_bytes': (33200, 1),
+        'strict_eval_max_bytes': (6170, 1), 'strict_eval_max_result_bits': (13700, 1), 'p2_frames': (20, 1),
+        'p2_methods': (20, 1), 'stmt_transfers_p2': (56, 1), 'call_resolutions_p2': (16, 1), 'prep_files': (16, 1),
+    },
+    'hostile_concat': {
+        'gir_stmts': (96, 1), 'calls_lang': (3240, 1), 'calls_basics': (1360, 1), 'calls_core': (4850, 1),
+        'calls_taint': (3530, 1), 'calls_structs': (56000, 1), 'p3_frames': (16, 1), 'stmt_transfers_p3': (110, 1),
+        'handler_runs': (186, 1), 'space_adds': (1340, 1), 'states_created': (120, 1), 'p3_space_len': (456, 1),
+        'sfg_nodes': (360, 1), 'sfg_edges': (437, 1), 'sfg_add_edge_calls': (873, 1), 'call_paths': (10, 1),
+        'call_resolutions_p3': (20, 1), 'taint_pops': (96, 1), 'taint_propagations': (10, 1),
+        'taint_enqueue_calls': (96, 1), 'strict_eval_calls': (74, 1), 'strict_eval_bytes': (22900, 1),
+        'strict_eval_max_bytes': (1730, 1), 'strict_eval_max_result_bits': (12900, 1), 'p2_frames': (20, 1),
+        'p2_methods': (20, 1), 'stmt_transfers_p2': (76, 1), 'call_resolutions_p2': (16, 1), 'prep_files': (16, 1),
+    },
+    'hostile_literal': {
+        'gir_stmts': (80, 1), 'calls_lang': (2560, 1), 'calls_basics': (1200, 1), 'calls_core': (3740, 1),
+        'calls_taint': (2820, 1), 'calls_structs': (33300, 1), 'p3_frames': (16, 1), 'stmt_transfers_p3': (80, 1),
+        'handler_runs': (140, 1), 'space_adds': (960, 1), 'states_created': (76, 1), 'p3_space_len': (306, 1),
+        'sfg_nodes': (216, 1), 'sfg_edges': (210, 1), 'sfg_add_edge_calls': (530, 1), 'call_paths': (10, 1),
+        'call_resolutions_p3': (20, 1), 'taint_pops': (96, 1), 'taint_propagations': (10, 1),
+        'taint_enqueue_calls': (96, 1), 'strict_eval_calls': (26, 1), 'strict_eval_bytes': (25000, 4),
+        'strict_eval_max_bytes': (8330, 4), 'strict_eval_max_result_bits': (5470, 1), 'p2_frames': (20, 1),
+        'p2_methods': (20, 1), 'stmt_transfers_p2': (60, 1), 'call_resolutions_p2': (16, 1), 'prep_files': (16, 1),
+    },
+    'hostile_pow': {
+        'gir_stmts': (96, 1), 'calls_lang': (2500, 1), 'calls_basics': (1340, 1), 'calls_core': (5120, 1),
+        'calls_taint': (3880, 1), 'calls_structs': (49100, 1), 'p3_frames': (16, 1), 'stmt_transfers_p3': (110, 1),
+        'handler_runs': (186, 1), 'space_adds': (1340, 1), 'states_created': (76, 1), 'p3_space_len': (450, 1),
+        'sfg_nodes': (360, 1), 'sfg_edges': (376, 1), 'sfg_add_edge_calls': (890, 1), 'call_paths': (10, 1),
+        'call_resolutions_p3': (20, 1), 'taint_pops': (110, 1), 'taint_propagations': (10, 1),
+        'taint_enqueue_calls': (120, 1), 'strict_eval_calls': (30, 1), 'strict_eval_bytes': (126, 1),
+        'strict_eval_max_bytes': (36, 1), 'strict_eval_max_result_bits': (7020, 1), 'p2_frames': (20, 1),
+        'p2_methods': (20, 1), 'stmt_transfers_p2': (76, 1), 'call_resolutions_p2': (16, 1), 'prep_files': (16, 1),
+    },
+    'hostile_pow_tower': {
+        'gir_stmts': (96, 1), 'calls_lang': (2500, 1), 'calls_basics': (1340, 1), 'calls_core': (5120, 1),
+        'calls_taint': (3880, 1), 'calls_structs': (49100, 1), 'p3_frames': (16, 1), 'stmt_transfers_p3': (110, 1),
+        'handler_runs': (186, 1), 'space_adds': (1340, 1), 'states_created': (76, 1), 'p3_space_len': (450, 1),
+        'sfg_nodes': (360, 1), 'sfg_edges': (376, 1), 'sfg_add_edge_calls': (890, 1), 'call_paths': (10, 1),
+        'call_resolutions_p3': (20, 1), 'taint_pops': (110, 1), 'taint_propagations': (10, 1),
+        'taint_enqueue_calls': (120, 1), 'strict_eval_calls': (16, 2), 'strict_eval_bytes': (27, 3),
+        'strict_eval_max_bytes': (16, 2), 'strict_eval_max_result_bits': (146, 1), 'p2_frames': (20, 1),
+        'p2_methods': (20, 1), 'stmt_transfers_p2': (76, 1), 'call_resolutions_p2': (16, 1), 'prep_files': (16, 1),
+    },
+    'hostile_shift': {
+        'gir_stmts': (96, 1), 'calls_lang': (2500, 1), 'calls_basics': (1340, 1), 'calls_core': (5120, 1),
+        'calls_taint': (3880, 1), 'calls_structs': (49100, 1), 'p3_frames': (16, 1), 'stmt_transfers_p3': (110, 1),
+        'handler_runs': (186, 1), 'space_adds': (1340, 1), 'states_created': (76, 1), 'p3_space_len': (450, 1),
+        'sfg_nodes': (360, 1), 'sfg_edges': (376, 1), 'sfg_add_edge_calls': (890, 1), 'call_paths': (10, 1),
+        'call_resolutions_p3': (20, 1), 'taint_pops': (110, 1), 'taint_propagations': (10, 1),
+        'taint_enqueue_calls': (120, 1), 'strict_eval_calls': (30, 1), 'strict_eval_bytes': (126, 1),
+        'strict_eval_max_bytes': (36, 1), 'strict_eval_max_result_bits': (2500, 1), 'p2_frames': (20, 1),
+        'p2_methods': (20, 1), 'stmt_transfers_p2': (76, 1), 'call_resolutions_p2': (16, 1), 'prep_files': (16, 1),
+    },
+    'hostile_str_repeat': {
+        'gir_stmts': (96, 1), 'calls_lang': (2560, 1), 'calls_basics': (1340, 1), 'calls_core': (5120, 1),
+        'calls_taint': (3880, 1), 'calls_structs': (49100, 1), 'p3_frames': (16, 1), 'stmt_transfers_p3': (110, 1),
+        'handler_runs': (186, 1), 'space_adds': (1340, 1), 'states_created': (76, 1), 'p3_space_len': (450, 1),
+        'sfg_nodes': (360, 1), 'sfg_edges': (376, 1), 'sfg_add_edge_calls': (890, 1), 'call_paths': (10, 1),
+        'call_resolutions_p3': (20, 1), 'taint_pops': (110, 1), 'taint_propagations': (10, 1),
+        'taint_enqueue_calls': (120, 1), 'strict_eval_calls': (26, 1), 'strict_eval_bytes': (180, 1),
+        'strict_eval_max_bytes': (56, 1), 'strict_eval_max_result_bits': (30, 1), 'p2_frames': (20, 1),
+        'p2_methods': (20, 1), 'stmt_transfers_p2': (76, 1), 'call_resolutions_p2': (16, 1), 'prep_files': (16, 1),
+    },
+    'inherit_chain': {
+        'gir_stmts': (230, 1), 'calls_lang': (4200, 1), 'calls_basics': (1990, 1), 'calls_core': (1480, 4),
+        'calls_taint': (5820, 2), 'calls_structs': (24200, 3), 'p3_frames': (56, 1), 'stmt_transfers_p3': (260, 1),
+        'handler_runs': (290, 1), 'space_adds': (1220, 2), 'states_created': (412, 1), 'p3_space_len': (7700, 1),
+        'sfg_nodes': (383, 2), 'sfg_edges': (745, 2), 'sfg_add_edge_calls': (1670, 2), 'call_paths': (38, 1),
+        'call_resolutions_p3': (100, 1), 'taint_pops': (589, 1), 'taint_propagations': (10, 1),
+        'taint_enqueue_calls': (662, 1), 'strict_eval_calls': (50, 1), 'strict_eval_bytes': (200, 1),
+        'strict_eval_max_bytes': (20, 1), 'strict_eval_max_result_bits': (10, 1), 'p2_frames': (36, 1),
+        'p2_methods': (26, 1), 'stmt_transfers_p2': (130, 1), 'call_resolutions_p2': (46, 1), 'prep_files': (16, 1),
+    },
+    'java_chain_k2': {
+        'gir_stmts': (206, 1), 'calls_lang': (3320, 1), 'calls_basics': (1310, 1), 'calls_core': (34300, 1),
+        'calls_taint': (7100, 1), 'calls_structs': (129000, 1), 'p3_frames': (38, 1), 'stmt_transfers_p3': (323, 1),
+        'handler_runs': (413, 1), 'space_adds': (2970, 1), 'states_created': (36, 1), 'p3_space_len': (1190, 1),
+        'sfg_nodes': (873, 1), 'sfg_edges': (1120, 1), 'sfg_add_edge_calls': (2380, 1), 'call_paths': (36, 1),
+        'call_resolutions_p3': (108, 1), 'taint_pops': (148, 1), 'taint_propagations': (10, 1),
+        'taint_enqueue_calls': (196, 1), 'strict_eval_calls': (10, 1), 'strict_eval_bytes': (10, 1),
+        'strict_eval_max_bytes': (10, 1), 'strict_eval_max_result_bits': (10, 1), 'p2_frames': (20, 1),
+        'p2_methods': (20, 1), 'stmt_transfers_p2': (90, 1), 'call_resolutions_p2': (30, 1), 'prep_files': (10, 1),
+    },
+    'java_hostile_shift': {
+        'gir_stmts': (116, 1), 'calls_lang': (2300, 1), 'calls_basics': (816, 1), 'calls_core': (2220, 1),
+        'calls_taint': (1420, 1), 'calls_structs': (19400, 1), 'p3_frames': (10, 1), 'stmt_transfers_p3': (40, 1),
+        'handler_runs': (90, 1), 'space_adds': (536, 1), 'states_created': (36, 1), 'p3_space_len': (130, 1),
+        'sfg_nodes': (86, 1), 'sfg_edges': (100, 1), 'sfg_add_edge_calls': (310, 1), 'call_paths': (10, 1),
+        'call_resolutions_p3': (10, 1), 'taint_pops': (56, 1), 'taint_propagations': (10, 1),
+        'taint_enqueue_calls': (60, 1), 'strict_eval_calls': (20, 1), 'strict_eval_bytes': (46, 1),
+        'strict_eval_max_bytes': (26, 1), 'strict_eval_max_result_bits': (2500, 1), 'p2_frames': (10, 1),
+        'p2_methods': (10, 1), 'stmt_transfers_p2': (50, 1), 'call_resolutions_p2': (10, 1), 'prep_files': (10, 1),
+    },
+    'java_nested_loops': {
+        'gir_stmts': (200, 1), 'calls_lang': (3490, 1), 'calls_basics': (1280, 1), 'calls_core': (4460, 1),
+        'calls_taint': (2340, 1), 'calls_structs': (46600, 1), 'p3_frames': (10, 1), 'stmt_transfers_p3': (100, 1),
+        'handler_runs': (180, 1), 'space_adds': (1030, 1), 'states_created': (70, 1), 'p3_space_len': (290, 1),
+        'sfg_nodes': (239, 1), 'sfg_edges': (269, 1), 'sfg_add_edge_calls': (739, 1), 'call_paths': (10, 1),
+        'call_resolutions_p3': (10, 1), 'taint_pops': (70, 1), 'taint_propagations': (10, 1),
+        'taint_enqueue_calls': (86, 1), 'strict_eval_calls': (58, 1), 'strict_eval_bytes': (209, 1),
+        'strict_eval_max_bytes': (26, 1), 'strict_eval_max_result_bits': (10, 1), 'p2_frames': (10, 1),
+        'p2_methods': (10, 1), 'stmt_transfers_p2': (100, 1), 'call_resolutions_p2': (10, 1), 'prep_files': (10, 1),
+    },
+    'js_chain_k2': {
+        'gir_stmts': (160, 1), 'calls_lang': (4550, 1), 'calls_basics': (1540, 1), 'calls_core': (47800, 1),
+        'calls_taint': (10400, 1), 'calls_structs': (189000, 1), 'p3_frames': (76, 1), 'stmt_transfers_p3': (508, 1),
+        'handler_runs': (580, 1), 'space_adds': (4720, 1), 'states_created': (60, 1), 'p3_space_len': (2090, 1),
+        'sfg_nodes': (1150, 1), 'sfg_edges': (1480, 1), 'sfg_add_edge_calls': (3110, 1), 'call_paths': (71, 1),
+        'call_resolutions_p3': (217, 1), 'taint_pops': (204, 1), 'taint_propagations': (10, 1),
+        'taint_enqueue_calls': (225, 1), 'strict_eval_calls': (10, 1), 'strict_eval_bytes': (10, 1),
+        'strict_eval_max_bytes': (10, 1), 'strict_eval_max_result_bits': (10, 1), 'p2_frames': (26, 1),
+        'p2_methods': (26, 1), 'stmt_transfers_p2': (100, 1), 'call_resolutions_p2': (30, 1), 'prep_files': (10, 1),
+    },
+    'js_hostile_pow': {
+        'gir_stmts': (96, 1), 'calls_lang': (3600, 1), 'calls_basics': (1300, 1), 'calls_core': (5340, 1),
+        'calls_taint': (3890, 1), 'calls_structs': (50900, 1), 'p3_frames': (16, 1), 'stmt_transfers_p3': (110, 1),
+        'handler_runs': (190, 1), 'space_adds': (1400, 1), 'states_created': (80, 1), 'p3_space_len': (456, 1),
+        'sfg_nodes': (350, 1), 'sfg_edges': (376, 1), 'sfg_add_edge_calls': (930, 1), 'call_paths': (10, 1),
+        'call_resolutions_p3': (20, 1), 'taint_pops': (116, 1), 'taint_propagations': (10, 1),
+        'taint_enqueue_calls': (126, 1), 'strict_eval_calls': (30, 1), 'strict_eval_bytes': (126, 1),
+        'strict_eval_max_bytes': (36, 1), 'strict_eval_max_result_bits': (7020, 1), 'p2_frames': (16, 1),
+        'p2_methods': (16, 1), 'stmt_transfers_p2': (86, 1), 'call_resolutions_p2': (16, 1), 'prep_files': (10, 1),
+    },
+    'js_mutual_ring': {
+        'gir_stmts': (150, 1), 'calls_lang': (4560, 1), 'calls_basics': (1520, 1), 'calls_core': (16700, 1),
+        'calls_taint': (7960, 1), 'calls_structs': (102000, 1), 'p3_frames': (36, 1), 'stmt_transfers_p3': (240, 1),
+        'handler_runs': (336, 1), 'space_adds': (2820, 1), 'states_created': (146, 1), 'p3_space_len': (928, 1),
+        'sfg_nodes': (786, 1), 'sfg_edges': (946, 1), 'sfg_add_edge_calls': (2060, 1), 'call_paths': (10, 1),
+        'call_resolutions_p3': (70, 1), 'taint_pops': (166, 1), 'taint_propagations': (10, 1),
+        'taint_enqueue_calls': (176, 1), 'strict_eval_calls': (60, 1), 'strict_eval_bytes': (242, 1),
+        'strict_eval_max_bytes': (26, 1), 'strict_eval_max_result_bits': (10, 1), 'p2_frames': (20, 1),
+        'p2_methods': (20, 1), 'stmt_transfers_p2': (100, 1), 'call_resolutions_p2': (26, 1), 'prep_files': (10, 1),
+    },
+    'long_flow': {
+        'gir_stmts': (160, 1), 'calls_lang': (3830, 1), 'calls_basics': (1720, 1), 'calls_core': (9520, 1),
+        'calls_taint': (8710, 1), 'calls_structs': (623000, 1), 'p3_frames': (16, 1), 'stmt_transfers_p3': (317, 1),
+        'handler_runs': (473, 1), 'space_adds': (2320, 1), 'states_created': (90, 1), 'p3_space_len': (944, 1),
+        'sfg_nodes': (504, 1), 'sfg_edges': (767, 1), 'sfg_add_edge_calls': (1530, 1), 'call_paths': (10, 1),
+        'call_resolutions_p3': (20, 1), 'taint_pops': (371, 1), 'taint_propagations': (10, 1),
+        'taint_enqueue_calls': (476, 1), 'strict_eval_calls': (53, 1), 'strict_eval_bytes': (52, 2),
+        'strict_eval_max_bytes': (26, 1), 'strict_eval_max_result_bits': (26, 1), 'p2_frames': (20, 1),
+        'p2_methods': (20, 1), 'stmt_transfers_p2': (159, 1), 'call_resolutions_p2': (16, 1), 'prep_files': (16, 1),
+    },
+    'mutual_ring': {
+        'gir_stmts': (159, 1), 'calls_lang': (3450, 1), 'calls_basics': (1610, 1), 'calls_core': (17000, 1),
+        'calls_taint': (8430, 1), 'calls_structs': (107000, 1), 'p3_frames': (36, 1), 'stmt_transfers_p3': (260, 1),
+        'handler_runs': (356, 1), 'space_adds': (2900, 1), 'states_created': (140, 1), 'p3_space_len': (922, 1),
+        'sfg_nodes': (796, 1), 'sfg_edges': (930, 1), 'sfg_add_edge_calls': (2120, 1), 'call_paths': (10, 1),
+        'call_resolutions_p3': (70, 1), 'taint_pops': (180, 1), 'taint_propagations': (10, 1),
+        'taint_enqueue_calls': (190, 1), 'strict_eval_calls': (60, 1), 'strict_eval_bytes': (242, 1),
+        'strict_eval_max_bytes': (26, 1), 'strict_eval_max_result_bits': (10, 1), 'p2_frames': (26, 1),
+        'p2_methods': (26, 1), 'stmt_transfers_p2': (100, 1), 'call_resolutions_p2': (26, 1), 'prep_files': (16, 1),
+    },
+    'nested_loops': {
+        'gir_stmts': (130, 1), 'calls_lang': (3630, 1), 'calls_basics': (1560, 1), 'calls_core': (6520, 1),
+        'calls_taint': (4150, 1), 'calls_structs': (57200, 1), 'p3_frames': (16, 1), 'stmt_transfers_p3': (189, 1),
+        'handler_runs': (260, 1), 'space_adds': (1630, 1), 'states_created': (120, 1), 'p3_space_len': (576, 1),
+        'sfg_nodes': (459, 1), 'sfg_edges': (514, 1), 'sfg_add_edge_calls': (1090, 1), 'call_paths': (10, 1),
+        'call_resolutions_p3': (30, 1), 'taint_pops': (96, 1), 'taint_propagations': (10, 1),
+        'taint_enqueue_calls': (106, 1), 'strict_eval_calls': (66, 1), 'strict_eval_bytes': (226, 1),
+        'strict_eval_max_bytes': (26, 1), 'strict_eval_max_result_bits': (10, 1), 'p2_frames': (20, 1),
+        'p2_methods': (20, 1), 'stmt_transfers_p2': (106, 1), 'call_resolutions_p2': (20, 1), 'prep_files': (16, 1),
+    },
+    'params_n': {
+        'gir_stmts': (116, 1), 'calls_lang': (2600, 1), 'calls_basics': (1340, 1), 'calls_core': (5260, 1),
+        'calls_taint': (3850, 1), 'calls_structs': (45000, 1), 'p3_frames': (26, 1), 'stmt_transfers_p3': (110, 1),
+        'handler_runs': (180, 1), 'space_adds': (1100, 1), 'states_created': (50, 1), 'p3_space_len': (336, 1),
+        'sfg_nodes': (256, 1), 'sfg_edges': (286, 1), 'sfg_add_edge_calls': (740, 1), 'call_paths': (10, 1),
+        'call_resolutions_p3': (40, 1), 'taint_pops': (130, 1), 'taint_propagations': (10, 1),
+        'taint_enqueue_calls': (140, 1), 'strict_eval_calls': (19, 1), 'strict_eval_bytes': (68, 1),
+        'strict_eval_max_bytes': (17, 1), 'strict_eval_max_result_bits': (10, 1), 'p2_frames': (26, 1),
+        'p2_methods': (26, 1), 'stmt_transfers_p2': (70, 1), 'call_resolutions_p2': (20, 1), 'prep_files': (16, 1),
+    },
+    'self_application': {
+        'gir_stmts': (120, 1), 'calls_lang': (2780, 1), 'calls_basics': (1420, 1), 'calls_core': (102000, 1),
+        'calls_taint': (11000, 1), 'calls_structs': (148000, 1), 'p3_frames': (59, 1), 'stmt_transfers_p3': (309, 1),
+        'handler_runs': (372, 1), 'space_adds': (2510, 1), 'states_created': (100, 1), 'p3_space_len': (1080, 1),
+        'sfg_nodes': (1190, 1), 'sfg_edges': (1500, 1), 'sfg_add_edge_calls': (3170, 1), 'call_paths': (19, 1),
+        'call_resolutions_p3': (135, 1), 'taint_pops': (176, 1), 'taint_propagations': (10, 1),
+        'taint_enqueue_calls': (182, 1), 'strict_eval_calls': (10, 1), 'strict_eval_bytes': (10, 1),
+        'strict_eval_max_bytes': (10, 1), 'strict_eval_max_result_bits': (10, 1), 'p2_frames': (26, 1),
+        'p2_methods': (20, 1), 'stmt_transfers_p2': (80, 1), 'call_resolutions_p2': (16, 2), 'prep_files': (16, 1),
+    },
+    'self_recursion': {
+        'gir_stmts': (150, 1), 'calls_lang': (3460, 1), 'calls_basics': (1620, 1), 'calls_core': (18900, 1),
+        'calls_taint': (14100, 1), 'calls_structs': (223000, 1), 'p3_frames': (36, 1), 'stmt_transfers_p3': (390, 1),
+        'handler_runs': (458, 1), 'space_adds': (3830, 1), 'states_created': (360, 1), 'p3_space_len': (1760, 1),
+        'sfg_nodes': (1630, 1), 'sfg_edges': (2040, 1), 'sfg_add_edge_calls': (4200, 1), 'call_paths': (16, 1),
+        'call_resolutions_p3': (96, 1), 'taint_pops': (250, 1), 'taint_propagations': (10, 1),
+        'taint_enqueue_calls': (270, 1), 'strict_eval_calls': (198, 1), 'strict_eval_bytes': (958, 1),
+        'strict_eval_max_bytes': (26, 1), 'strict_eval_max_result_bits': (13, 1), 'p2_frames': (26, 1),
+        'p2_methods': (26, 1), 'stmt_transfers_p2': (96, 1), 'call_resolutions_p2': (26, 1), 'prep_files': (16, 1),
+    },
+}
 
 
 if __name__ == "__main__":
